@@ -1,8 +1,10 @@
 package main
 
 import (
+	"fmt"
 	"go/ast"
 	"go/types"
+	"os"
 	"sort"
 	"strconv"
 	"strings"
@@ -421,6 +423,11 @@ func checkPhases(g *callGraph) *phaseCheck {
 	}
 	ph := &phaseCheck{promoted: map[string]bool{}, outPkgs: map[string][]string{}}
 	ph.reach = g.reach(runRoots, skip)
+	if os.Getenv("VERIF_X2_DEBUG") != "" { // the reachable set and the edges, for reviewing the construction
+		for _, f := range sortedKeys(ph.reach) {
+			fmt.Fprintln(os.Stderr, "reach", f, "->", strings.Join(sortedKeys(g.edges[f]), " "))
+		}
+	}
 	for _, from := range sortedKeys(ph.reach) {
 		for _, to := range sortedKeys(g.edges[from]) {
 			if isSetupFunc(to) {
